@@ -241,6 +241,168 @@ theorem ADD_generic_ok {a : F} (AC : EcCurve F) (hA : AC.A = a)
     field_simp
     ring
 
+/-! ### `ADD`: the special branches -/
+
+theorem is_jac_equal_eq (J1 J2 : JacPoint F) :
+    is_jac_equal J1 J2 = (decide (J1.y * (J2.z * J2.z * J2.z) - J2.y * (J1.z * J1.z * J1.z) = 0) &&
+      decide (J1.x * (J2.z * J2.z) - J2.x * (J1.z * J1.z) = 0)) := by
+  simp only [is_jac_equal]
+
+theorem jac_init_isJacC {a : F} : IsJacC (0 : (mont a).Point) (jac_init : JacPoint F) := by
+  refine ⟨?_, ?_, ?_⟩ <;> simp [jac_init]
+
+theorem copy_jac_point_eq (J : JacPoint F) : copy_jac_point J = J := by
+  simp [copy_jac_point]
+
+/-- `DBL` keeps the canonical form of `∞` and of affine results; the only non-canonical output is the doubling of a
+point of order 2 -/
+theorem DBL_okC {a : F} (h2 : (2 : F) ≠ 0) (AC : EcCurve F) (hA : AC.A = a)
+    (Pt : (mont a).Point) (J : JacPoint F) (hJ : IsJacC Pt J) (hns : Pt = 0 ∨ Pt + Pt ≠ 0) :
+    IsJacC (Pt + Pt) (DBL J AC) := by
+  match Pt, hJ, hns with
+  | .zero, ⟨hx, hz, _⟩, _ =>
+    show IsJacC (0 + 0) _
+    rw [add_zero]
+    have hc : (decide (J.x = 0) && decide (J.z = 0)) = true := by simp [hx, hz]
+    simp only [DBL, hc, if_true]
+    exact jac_init_isJacC
+  | .some x y hxy, hJ, hns =>
+    have h := DBL_ok h2 AC hA (Affine.Point.some x y hxy) J hJ
+    rcases hns with h0 | hne
+    · exact absurd h0 (Affine.Point.some_ne_zero hxy)
+    · generalize hS : Affine.Point.some x y hxy + Affine.Point.some x y hxy = S at h hne ⊢
+      match S, h, hne with
+      | .zero, _, hne => exact absurd rfl hne
+      | .some _ _ _, h, _ => exact h
+
+/-- **`ADD` on all inputs** (`∞` in the canonical form `(0 : Y≠0 : 0)` that `jac_init` produces and that `DBL`/`ADD`
+test for): the result represents `P + Q`, and it is again canonical except when the `P = Q` branch doubles a point
+of order 2. -/
+theorem ADD_ok {a : F} (h2 : (2 : F) ≠ 0) (AC : EcCurve F) (hA : AC.A = a)
+    (Pt Qt : (mont a).Point) (J1 J2 : JacPoint F) (h1 : IsJacC Pt J1) (h2' : IsJacC Qt J2) :
+    IsJac (Pt + Qt) (ADD J1 J2 AC) ∧
+    ((¬ (Pt = Qt ∧ Pt ≠ 0 ∧ Pt + Pt = 0)) → IsJacC (Pt + Qt) (ADD J1 J2 AC)) := by
+  match Pt, Qt, h1, h2' with
+  | .zero, .zero, ⟨hx1, hz1, hy1⟩, ⟨hx2, hz2, hy2⟩ =>
+    have hc1 : is_jac_equal J1 J2 = true := by
+      rw [is_jac_equal_eq]; simp [hx1, hz1, hx2, hz2]
+    have hd : (decide (J1.x = 0) && decide (J1.z = 0)) = true := by simp [hx1, hz1]
+    have : ADD J1 J2 AC = jac_init := by
+      simp only [ADD, hc1, if_true, DBL, hd]
+    rw [this]
+    show IsJac (0 + 0) _ ∧ (_ → IsJacC (0 + 0) _)
+    rw [add_zero]
+    exact ⟨jac_init_isJacC.isJac, fun _ => jac_init_isJacC⟩
+  | .zero, .some x2 y2 hq, ⟨hx1, hz1, hy1⟩, ⟨hz2, hx2, hy2⟩ =>
+    have hne : J1.y * (J2.z * J2.z * J2.z) ≠ 0 := mul_ne_zero hy1 (mul_ne_zero (mul_ne_zero hz2 hz2) hz2)
+    have hc1 : is_jac_equal J1 J2 = false := by
+      rw [is_jac_equal_eq]; simp [hx1, hz1, hne]
+    have hc4 : is_jac_equal (jac_neg J1) J2 = false := by
+      rw [is_jac_equal_eq]; simp [jac_neg, hx1, hz1, hne]
+    have hc7 : (decide (J1.x = 0) && decide (J1.z = 0)) = true := by simp [hx1, hz1]
+    have : ADD J1 J2 AC = J2 := by
+      simp only [ADD, hc1, hc4, hc7, Bool.false_eq_true, if_false, if_true, copy_jac_point_eq]
+    rw [this]
+    have e : (Affine.Point.zero : (mont a).Point) + Affine.Point.some x2 y2 hq = Affine.Point.some x2 y2 hq := zero_add _
+    rw [e]
+    exact ⟨⟨hz2, hx2, hy2⟩, fun _ => ⟨hz2, hx2, hy2⟩⟩
+  | .some x1 y1 hp, .zero, ⟨hz1, hx1, hy1⟩, ⟨hx2, hz2, hy2⟩ =>
+    have hne : J2.y * (J1.z * J1.z * J1.z) ≠ 0 := mul_ne_zero hy2 (mul_ne_zero (mul_ne_zero hz1 hz1) hz1)
+    have hc1 : is_jac_equal J1 J2 = false := by
+      rw [is_jac_equal_eq]; simp [hx2, hz2, hne]
+    have hc4 : is_jac_equal (jac_neg J1) J2 = false := by
+      rw [is_jac_equal_eq]; simp [jac_neg, hx2, hz2, hne]
+    have hc7 : (decide (J1.x = 0) && decide (J1.z = 0)) = false := by simp [hz1]
+    have hc10 : (decide (J2.x = 0) && decide (J2.z = 0)) = true := by simp [hx2, hz2]
+    have : ADD J1 J2 AC = J1 := by
+      simp only [ADD, hc1, hc4, hc7, hc10, Bool.false_eq_true, if_false, if_true, copy_jac_point_eq]
+    rw [this]
+    have e : Affine.Point.some x1 y1 hp + (Affine.Point.zero : (mont a).Point) = Affine.Point.some x1 y1 hp := add_zero _
+    rw [e]
+    exact ⟨⟨hz1, hx1, hy1⟩, fun _ => ⟨hz1, hx1, hy1⟩⟩
+  | .some x1 y1 hp, .some x2 y2 hq, hJ1, hJ2 =>
+    by_cases hx : x1 = x2
+    · subst hx
+      obtain ⟨X1, Y1, Z1⟩ := J1
+      obtain ⟨X2, Y2, Z2⟩ := J2
+      obtain ⟨hz1, hx1, hy1⟩ := hJ1
+      obtain ⟨hz2, hx2, hy2⟩ := hJ2
+      simp only at hz1 hx1 hy1 hz2 hx2 hy2
+      subst hx1 hy1 hx2 hy2
+      have hzz : Z1 ^ 3 * Z2 ^ 3 ≠ 0 := mul_ne_zero (pow_ne_zero _ hz1) (pow_ne_zero _ hz2)
+      rcases Affine.Y_eq_of_X_eq hp.1 hq.1 rfl with hy | hy
+      · -- P = Q : the DBL branch
+        subst hy
+        have hc1 : is_jac_equal (⟨x1 * Z1 ^ 2, y1 * Z1 ^ 3, Z1⟩ : JacPoint F) ⟨x1 * Z2 ^ 2, y1 * Z2 ^ 3, Z2⟩ = true := by
+          rw [is_jac_equal_eq]
+          simp only [Bool.and_eq_true, decide_eq_true_eq]
+          constructor <;> ring
+        have : ADD (⟨x1 * Z1 ^ 2, y1 * Z1 ^ 3, Z1⟩ : JacPoint F) ⟨x1 * Z2 ^ 2, y1 * Z2 ^ 3, Z2⟩ AC
+            = DBL ⟨x1 * Z1 ^ 2, y1 * Z1 ^ 3, Z1⟩ AC := by
+          simp only [ADD, hc1, if_true]
+        rw [this]
+        have hJ : IsJacC (Affine.Point.some x1 y1 hp) (⟨x1 * Z1 ^ 2, y1 * Z1 ^ 3, Z1⟩ : JacPoint F) := ⟨hz1, rfl, rfl⟩
+        refine ⟨DBL_ok h2 AC hA _ _ hJ.isJac, ?_⟩
+        intro hn
+        apply DBL_okC h2 AC hA _ _ hJ
+        right
+        intro h0
+        exact hn ⟨rfl, Affine.Point.some_ne_zero hp, h0⟩
+      · -- P = -Q
+        rw [mont_negY] at hy
+        by_cases hyy : y1 = y2
+        · -- y1 = y2 = 0 : same point of order 2, DBL branch
+          have hy0 : y2 = 0 := by
+            have : (2 : F) * y2 = 0 := by linear_combination hy - hyy
+            rcases mul_eq_zero.mp this with h | h
+            · exact absurd h h2
+            · exact h
+          subst hy0
+          have hy1' : y1 = 0 := by rw [hy]; ring
+          subst hy1'
+          have hc1 : is_jac_equal (⟨x1 * Z1 ^ 2, 0 * Z1 ^ 3, Z1⟩ : JacPoint F) ⟨x1 * Z2 ^ 2, 0 * Z2 ^ 3, Z2⟩ = true := by
+            rw [is_jac_equal_eq]
+            simp only [Bool.and_eq_true, decide_eq_true_eq]
+            constructor <;> ring
+          have : ADD (⟨x1 * Z1 ^ 2, 0 * Z1 ^ 3, Z1⟩ : JacPoint F) ⟨x1 * Z2 ^ 2, 0 * Z2 ^ 3, Z2⟩ AC
+              = DBL ⟨x1 * Z1 ^ 2, 0 * Z1 ^ 3, Z1⟩ AC := by
+            simp only [ADD, hc1, if_true]
+          rw [this]
+          have hJ : IsJacC (Affine.Point.some x1 0 hp) (⟨x1 * Z1 ^ 2, 0 * Z1 ^ 3, Z1⟩ : JacPoint F) := ⟨hz1, rfl, rfl⟩
+          have hsum : Affine.Point.some x1 0 hp + Affine.Point.some x1 0 hp = 0 :=
+            Affine.Point.add_self_of_Y_eq (by rw [mont_negY]; simp)
+          refine ⟨DBL_ok h2 AC hA _ _ hJ.isJac, ?_⟩
+          intro hn
+          exact absurd ⟨rfl, Affine.Point.some_ne_zero hp, hsum⟩ hn
+        · -- genuinely opposite points: canonical infinity
+          have hsum : Affine.Point.some x1 y1 hp + Affine.Point.some x1 y2 hq = 0 :=
+            Affine.Point.add_of_Y_eq rfl (by rw [mont_negY]; exact hy)
+          have hc1 : is_jac_equal (⟨x1 * Z1 ^ 2, y1 * Z1 ^ 3, Z1⟩ : JacPoint F) ⟨x1 * Z2 ^ 2, y2 * Z2 ^ 3, Z2⟩ = false := by
+            rw [is_jac_equal_eq]
+            simp only [Bool.and_eq_false_iff, decide_eq_false_iff_not]
+            left
+            intro hh
+            have : (y1 - y2) * (Z1 ^ 3 * Z2 ^ 3) = 0 := by linear_combination hh
+            rcases mul_eq_zero.mp this with h | h
+            · exact hyy (sub_eq_zero.mp h)
+            · exact hzz h
+          have hc4 : is_jac_equal (jac_neg (⟨x1 * Z1 ^ 2, y1 * Z1 ^ 3, Z1⟩ : JacPoint F)) ⟨x1 * Z2 ^ 2, y2 * Z2 ^ 3, Z2⟩ = true := by
+            have hn : jac_neg (⟨x1 * Z1 ^ 2, y1 * Z1 ^ 3, Z1⟩ : JacPoint F) = ⟨x1 * Z1 ^ 2, -(y1 * Z1 ^ 3), Z1⟩ := rfl
+            rw [hn, is_jac_equal_eq]
+            have e1 : -(y1 * Z1 ^ 3) * (Z2 * Z2 * Z2) - y2 * Z2 ^ 3 * (Z1 * Z1 * Z1) = 0 := by rw [hy]; ring
+            have e2 : x1 * Z1 ^ 2 * (Z2 * Z2) - x1 * Z2 ^ 2 * (Z1 * Z1) = 0 := by ring
+            simp only [Bool.and_eq_true, decide_eq_true_eq]
+            exact ⟨e1, e2⟩
+          have : ADD (⟨x1 * Z1 ^ 2, y1 * Z1 ^ 3, Z1⟩ : JacPoint F) ⟨x1 * Z2 ^ 2, y2 * Z2 ^ 3, Z2⟩ AC = jac_init := by
+            simp only [ADD, hc1, hc4, Bool.false_eq_true, if_false, if_true]
+          rw [this, hsum]
+          exact ⟨jac_init_isJacC.isJac, fun _ => jac_init_isJacC⟩
+    · have h := ADD_generic_ok AC hA hp hq hx J1 J2 hJ1 hJ2
+      refine ⟨h, fun _ => ?_⟩
+      obtain ⟨x3, y3, h3, hs, _, _⟩ := add_some_ne_xy hp hq hx
+      rw [hs] at h ⊢
+      exact h
+
 /-! ## j-invariant -/
 
 theorem ec_j_inv_ok {a : F} (h2 : (2 : F) ≠ 0) (curve : EcCurve F) (hA : curve.A = a * curve.C)
